@@ -371,14 +371,23 @@ class ClassObject(Object, Callable):
     @cached_property
     def bases(self):
         # type: () -> list[CallableProto]
-        return list(filter(None, (self.ctx.evaluate(r) for r in self.scope._bases)))  # type: ignore[misc]
+        # only what can be inherited from: a base with several possible values
+        # (CompositeValue) or an instance is not
+        return [b for b in (self.ctx.evaluate(r) for r in self.scope._bases)
+                if isinstance(b, Callable)]  # type: ignore[misc]
 
     @cached_property
     def _attrs(self):
         # type: () -> Attributes
         attrs = {}
-        for b in reversed(self.bases):
-            attrs.update(b._attrs)
+        if getattr(self, '_busy', False):
+            return attrs  # an inheritance cycle
+        self._busy = True
+        try:
+            for b in reversed(self.bases):
+                attrs.update(b._attrs)
+        finally:
+            self._busy = False
         attrs.update(self._cls_attrs)
         return attrs
 
@@ -417,10 +426,16 @@ class InstanceValue(Object):
         # type: () -> Attributes
         # attributes assigned through self, in this class and in its bases
         attrs = {}  # type: Attributes
-        for b in reversed(self.cls.bases):
-            o = b.call(self.ctx)
-            if isinstance(o, InstanceValue):
-                attrs.update(o._inst_attrs)
+        if getattr(self, '_busy', False):
+            return attrs  # an inheritance cycle
+        self._busy = True
+        try:
+            for b in reversed(self.cls.bases):
+                o = b.call(self.ctx)
+                if isinstance(o, InstanceValue):
+                    attrs.update(o._inst_attrs)
+        finally:
+            self._busy = False
         attrs.update(self.cls.scope.top.assigns(self.ctx).get(self, {}))
         return attrs
 
